@@ -1090,13 +1090,14 @@ theorem produce_at {σ : Type} {W : World} (hW : W.Ok) {D : Decoder σ ℝ} {pos
     have : (W.trAt m).playing = false := hp
     simp [this]
 
-/-- `run` with no pending decoder command, a ring that is not full and a sound that is not Stopped is `produce` -/
+/-- `run` with no pending decoder command, a ring that is not full and a sound that is neither Stopped nor dropped
+    is `produce` -/
 theorem run_eq_produce {σ : Type} (D : Decoder σ ℝ) (fuel : Nat) (s : Sys σ ℝ) (h0 : s.core.shared ≠ .stopped)
-    (hfull : s.ring.isFull = false) (h1 : s.cmds.setLoopRegion = none) (h2 : s.cmds.seekBy = none)
+    (hd : s.soundDropped = false) (hfull : s.ring.isFull = false) (h1 : s.cmds.setLoopRegion = none) (h2 : s.cmds.seekBy = none)
     (h3 : s.cmds.seekTo = none) : Sys.run D fuel s = Sys.produce D fuel s := by
   unfold Sys.run
   have hl : Sys.readLoopCmd s = s := by unfold Sys.readLoopCmd; simp [h1]
-  simp only [h0, if_false, hfull, Bool.false_eq_true, hl]
+  simp only [h0, if_false, hd, hfull, Bool.false_eq_true, hl]
   unfold Sys.readSeekByCmd
   simp only [h2]
   unfold Sys.readSeekToCmd
@@ -1104,7 +1105,7 @@ theorem run_eq_produce {σ : Type} (D : Decoder σ ℝ) (fuel : Nat) (s : Sys σ
 
 /-- the decoder's move in a history (`Op.decode`) -/
 noncomputable def decodeStep {σ : Type} (D : Decoder σ ℝ) (fuel : Nat) (s : Sys σ ℝ) : Sys σ ℝ :=
-  if s.reachedEnd then s else (Sys.threadIter D fuel s).2
+  if s.reachedEnd || s.encounteredError then s else (Sys.threadIter D fuel s).2
 
 /-- **one iteration of the decoder loop**: the relation holds again (with one more entry pushed, or unchanged) -/
 theorem decode_bisim {σ : Type} {W : World} (hW : W.Ok) {D : Decoder σ ℝ} {pos : σ → Nat} {good : σ → Prop}
@@ -1113,54 +1114,58 @@ theorem decode_bisim {σ : Type} {W : World} (hW : W.Ok) {D : Decoder σ ℝ} {p
     ∃ m', Bisim W pos good st (decodeStep D fuel s) a m' ∧ m ≤ m' := by
   unfold decodeStep
   by_cases hre : s.reachedEnd = true
-  · simp only [hre, if_true]; exact ⟨m, B, Nat.le_refl _⟩
+  · simp only [hre, Bool.true_or, if_true]; exact ⟨m, B, Nat.le_refl _⟩
   · have hre' : s.reachedEnd = false := by simpa using hre
-    simp only [hre', Bool.false_eq_true, if_false]
+    simp only [hre', B.noErr, Bool.or_self, Bool.false_eq_true, if_false]
     unfold Sys.threadIter
     by_cases h0 : s.core.shared = .stopped
     · have : Sys.run D fuel s = (.ok .end, s) := by unfold Sys.run; simp [h0]
       rw [this]; exact ⟨m, B, Nat.le_refl _⟩
-    · by_cases hfull : s.ring.isFull = true
-      · have : Sys.run D fuel s = (.ok .wait, s) := by unfold Sys.run; simp [h0, hfull]
+    · by_cases hd : s.soundDropped = true
+      · have : Sys.run D fuel s = (.ok .end, s) := by unfold Sys.run; simp [h0, hd]
         rw [this]; exact ⟨m, B, Nat.le_refl _⟩
-      · have hfull' : s.ring.isFull = false := by simpa using hfull
-        rw [run_eq_produce D fuel s h0 hfull' B.noSeek.1 B.noSeek.2.1 B.noSeek.2.2]
-        have hle := B.a_le hre'
-        have hroom : m - a < s.ring.cap := by
-          unfold Ring.isFull at hfull'
-          rw [B.tAt.ring, W.ringSlice_length] at hfull'
-          simpa using hfull'
-        obtain ⟨ds', hinv', hp⟩ := produce_at hW C B.tIn B.tAt hle hroom hre' fuel hfuel
-        rw [hp]
-        have hB : Bisim W pos good st ({ s with ds := ds', ring := { s.ring with items := W.ringSlice a (m + 1) }, transport := W.trAt m, reachedEnd := !W.pl m } : Sys σ ℝ) a (m + 1) :=
-          { sAt := B.sAt
-            tIn := { cfg_slice := B.tIn.cfg_slice, cfg_n := B.tIn.cfg_n, inv := hinv' }
-            tAt := { ring := rfl, transport := rfl, m_pos := by omega
-                     played := by
-                       intro k hk
-                       have hpm : W.pl (m - 1) = true := by
-                         have := B.tAt.reached; rw [hre'] at this; simpa using this.symm
-                       exact W.pl_of_later k (m - 1) (by omega) hpm
-                     reached := rfl }
-            frac := B.frac
-            sampleRate := B.sampleRate
-            volume := B.volume
-            playbackRate := B.playbackRate
-            panning := B.panning
-            core := B.core
-            cmds := B.cmds
-            noSeek := B.noSeek
-            frac_nonneg := B.frac_nonneg
-            frac_lt := B.frac_lt
-            inSync := B.inSync
-            endStopped := fun _ hle' => by omega
-            a_le := fun _ => by omega
-            noErr := B.noErr
-            cap := B.cap }
-        refine ⟨m + 1, ?_, by omega⟩
-        cases hpl : W.pl m with
-        | true => rw [hpl] at hB; simpa using hB
-        | false => rw [hpl] at hB; simpa using hB
+      · have hd' : s.soundDropped = false := by simpa using hd
+        by_cases hfull : s.ring.isFull = true
+        · have : Sys.run D fuel s = (.ok .wait, s) := by unfold Sys.run; simp [h0, hd', hfull]
+          rw [this]; exact ⟨m, B, Nat.le_refl _⟩
+        · have hfull' : s.ring.isFull = false := by simpa using hfull
+          rw [run_eq_produce D fuel s h0 hd' hfull' B.noSeek.1 B.noSeek.2.1 B.noSeek.2.2]
+          have hle := B.a_le hre'
+          have hroom : m - a < s.ring.cap := by
+            unfold Ring.isFull at hfull'
+            rw [B.tAt.ring, W.ringSlice_length] at hfull'
+            simpa using hfull'
+          obtain ⟨ds', hinv', hp⟩ := produce_at hW C B.tIn B.tAt hle hroom hre' fuel hfuel
+          rw [hp]
+          have hB : Bisim W pos good st ({ s with ds := ds', ring := { s.ring with items := W.ringSlice a (m + 1) }, transport := W.trAt m, reachedEnd := !W.pl m } : Sys σ ℝ) a (m + 1) :=
+            { sAt := B.sAt
+              tIn := { cfg_slice := B.tIn.cfg_slice, cfg_n := B.tIn.cfg_n, inv := hinv' }
+              tAt := { ring := rfl, transport := rfl, m_pos := by omega
+                       played := by
+                         intro k hk
+                         have hpm : W.pl (m - 1) = true := by
+                           have := B.tAt.reached; rw [hre'] at this; simpa using this.symm
+                         exact W.pl_of_later k (m - 1) (by omega) hpm
+                       reached := rfl }
+              frac := B.frac
+              sampleRate := B.sampleRate
+              volume := B.volume
+              playbackRate := B.playbackRate
+              panning := B.panning
+              core := B.core
+              cmds := B.cmds
+              noSeek := B.noSeek
+              frac_nonneg := B.frac_nonneg
+              frac_lt := B.frac_lt
+              inSync := B.inSync
+              endStopped := fun _ hle' => by omega
+              a_le := fun _ => by omega
+              noErr := B.noErr
+              cap := B.cap }
+          refine ⟨m + 1, ?_, by omega⟩
+          cases hpl : W.pl m with
+          | true => rw [hpl] at hB; simpa using hB
+          | false => rw [hpl] at hB; simpa using hB
 
 
 /-! ### whole histories -/
@@ -1427,9 +1432,10 @@ structure AudioOnly {σ : Type} (s s' : Sys σ ℝ) : Prop where
   transport : s'.transport = s.transport
   cap : s'.ring.cap = s.ring.cap
   ring : ∃ k, s'.ring.items = s.ring.items.drop k
+  soundDropped : s'.soundDropped = s.soundDropped
 
 theorem AudioOnly.refl {σ : Type} (s : Sys σ ℝ) : AudioOnly s s :=
-  ⟨rfl, rfl, rfl, rfl, rfl, rfl, rfl, rfl, rfl, ⟨0, by simp⟩⟩
+  ⟨rfl, rfl, rfl, rfl, rfl, rfl, rfl, rfl, rfl, ⟨0, by simp⟩, rfl⟩
 
 theorem AudioOnly.trans {σ : Type} {a b c : Sys σ ℝ} (h1 : AudioOnly a b) (h2 : AudioOnly b c) : AudioOnly a c := by
   obtain ⟨k1, hk1⟩ := h1.ring
@@ -1437,7 +1443,8 @@ theorem AudioOnly.trans {σ : Type} {a b c : Sys σ ℝ} (h1 : AudioOnly a b) (h
   exact ⟨by rw [h2.cfg, h1.cfg], by rw [h2.sampleRate, h1.sampleRate], by rw [h2.cmds, h1.cmds],
     by rw [h2.errRing, h1.errRing], by rw [h2.reachedEnd, h1.reachedEnd],
     by rw [h2.encounteredError, h1.encounteredError], by rw [h2.ds, h1.ds], by rw [h2.transport, h1.transport],
-    by rw [h2.cap, h1.cap], ⟨k1 + k2, by rw [hk2, hk1, List.drop_drop]⟩⟩
+    by rw [h2.cap, h1.cap], ⟨k1 + k2, by rw [hk2, hk1, List.drop_drop]⟩,
+    by rw [h2.soundDropped, h1.soundDropped]⟩
 
 theorem stepPos_audioOnly {σ : Type} : ∀ (fuel : Nat) (s s' : Sys σ ℝ), Sys.stepPos fuel s = .ok s' → AudioOnly s s' := by
   intro fuel
@@ -1455,14 +1462,14 @@ theorem stepPos_audioOnly {σ : Type} : ∀ (fuel : Nat) (s s' : Sys σ ℝ), Sy
     · have h1 := ih _ _ h
       rw [popFrame_eq] at h1
       have h0 : AudioOnly s ({ s with frac := s.frac - (1.0 : ℝ), ring := { s.ring with items := s.ring.items.drop 1 } } : Sys σ ℝ) :=
-        ⟨rfl, rfl, rfl, rfl, rfl, rfl, rfl, rfl, rfl, ⟨1, rfl⟩⟩
+        ⟨rfl, rfl, rfl, rfl, rfl, rfl, rfl, rfl, rfl, ⟨1, rfl⟩, rfl⟩
       exact h0.trans h1
     · injection h with h; subst h; exact AudioOnly.refl s
 
 theorem checkEnd_audioOnly {σ : Type} (s : Sys σ ℝ) : AudioOnly s s.checkEnd := by
   unfold Sys.checkEnd
   split
-  · exact ⟨rfl, rfl, rfl, rfl, rfl, rfl, rfl, rfl, rfl, ⟨0, by simp⟩⟩
+  · exact ⟨rfl, rfl, rfl, rfl, rfl, rfl, rfl, rfl, rfl, ⟨0, by simp⟩, rfl⟩
   · exact AudioOnly.refl s
 
 theorem renderFrame_audioOnly {σ : Type} (fuel : Nat) (s s' : Sys σ ℝ) (t dt : ℝ) (f : Frame ℝ)
@@ -1476,7 +1483,7 @@ theorem renderFrame_audioOnly {σ : Type} (fuel : Nat) (s s' : Sys σ ℝ) (t dt
     injection h with h1 h2
     subst h1
     have h0 : AudioOnly s ({ s with frac := s.frac + s.fracStep t dt } : Sys σ ℝ) :=
-      ⟨rfl, rfl, rfl, rfl, rfl, rfl, rfl, rfl, rfl, ⟨0, by simp⟩⟩
+      ⟨rfl, rfl, rfl, rfl, rfl, rfl, rfl, rfl, rfl, ⟨0, by simp⟩, rfl⟩
     exact (h0.trans (stepPos_audioOnly fuel _ _ hs)).trans (checkEnd_audioOnly s1)
 
 theorem renderLoop_audioOnly {σ : Type} (fuel : Nat) (dt : ℝ) (len : Nat) : ∀ (k i : Nat) (s s' : Sys σ ℝ)
@@ -1505,9 +1512,9 @@ theorem process_audioOnly {σ : Type} (fuel : Nat) (s s' : Sys σ ℝ) (len : Na
   unfold Sys.process at h
   split at h
   · injection h with h; injection h with h1 _; subst h1
-    exact ⟨rfl, rfl, rfl, rfl, rfl, rfl, rfl, rfl, rfl, ⟨0, by simp⟩⟩
+    exact ⟨rfl, rfl, rfl, rfl, rfl, rfl, rfl, rfl, rfl, ⟨0, by simp⟩, rfl⟩
   · rw [stream_processOk_eq] at h
-    have hg : AudioOnly s (gatedT s len dt info) := ⟨rfl, rfl, rfl, rfl, rfl, rfl, rfl, rfl, rfl, ⟨0, rfl⟩⟩
+    have hg : AudioOnly s (gatedT s len dt info) := ⟨rfl, rfl, rfl, rfl, rfl, rfl, rfl, rfl, rfl, ⟨0, rfl⟩, rfl⟩
     split at h
     · split at h
       · injection h with h; injection h with h1 _; subst h1; exact hg
@@ -1580,42 +1587,49 @@ theorem ringInv_step {σ : Type} {W : World} (hW : W.Ok) {D : Decoder σ ℝ} {p
     exact ⟨a', m, hle, Nat.le_refl _, R'⟩
   | decode =>
     injection h with h; injection h with h1 _; subst h1
-    by_cases hre : s.reachedEnd = true
-    · simp only [hre, if_true]; exact ⟨a, m, Nat.le_refl _, Nat.le_refl _, R⟩
-    · have hre' : s.reachedEnd = false := by simpa using hre
-      simp only [hre', Bool.false_eq_true, if_false]
+    by_cases hgone : (s.reachedEnd || s.encounteredError) = true
+    · simp only [hgone, if_true]; exact ⟨a, m, Nat.le_refl _, Nat.le_refl _, R⟩
+    · have hre' : s.reachedEnd = false := by
+        cases h : s.reachedEnd with
+        | false => rfl
+        | true => rw [h] at hgone; simp at hgone
+      simp only [hgone, Bool.false_eq_true, if_false]
       unfold Sys.threadIter
       by_cases h0 : s.core.shared = .stopped
       · have : Sys.run D fuel s = (.ok .end, s) := by unfold Sys.run; simp [h0]
         rw [this]; exact ⟨a, m, Nat.le_refl _, Nat.le_refl _, R⟩
-      · by_cases hfull : s.ring.isFull = true
-        · have : Sys.run D fuel s = (.ok .wait, s) := by unfold Sys.run; simp [h0, hfull]
+      · by_cases hd : s.soundDropped = true
+        · have : Sys.run D fuel s = (.ok .end, s) := by unfold Sys.run; simp [h0, hd]
           rw [this]; exact ⟨a, m, Nat.le_refl _, Nat.le_refl _, R⟩
-        · have hfull' : s.ring.isFull = false := by simpa using hfull
-          rw [run_eq_produce D fuel s h0 hfull' R.noSeek.1 R.noSeek.2.1 R.noSeek.2.2]
-          have hroom : m - a < s.ring.cap := by
-            unfold Ring.isFull at hfull'
-            rw [R.tAt.ring, W.ringSlice_length] at hfull'
-            simpa using hfull'
-          obtain ⟨ds', hinv', hp⟩ := produce_at hW C R.tIn R.tAt R.a_le hroom hre' fuel hfuel
-          rw [hp]
-          have hR : RingInv W pos good ({ s with ds := ds', ring := { s.ring with items := W.ringSlice a (m + 1) }, transport := W.trAt m, reachedEnd := !W.pl m } : Sys σ ℝ) a (m + 1) :=
-            { tIn := { cfg_slice := R.tIn.cfg_slice, cfg_n := R.tIn.cfg_n, inv := hinv' }
-              tAt := { ring := rfl, transport := rfl, m_pos := by omega
-                       played := by
-                         intro k hk
-                         have hpm : W.pl (m - 1) = true := by
-                           have := R.tAt.reached; rw [hre'] at this; simpa using this.symm
-                         have := R.tAt.m_pos
-                         exact W.pl_of_later k (m - 1) (by omega) hpm
-                       reached := rfl }
-              a_le := by have := R.a_le; omega
-              noSeek := R.noSeek
-              cap := R.cap }
-          refine ⟨a, m + 1, Nat.le_refl _, by omega, ?_⟩
-          cases hpl : W.pl m with
-          | true => rw [hpl] at hR; simpa using hR
-          | false => rw [hpl] at hR; simpa using hR
+        · have hd' : s.soundDropped = false := by simpa using hd
+          by_cases hfull : s.ring.isFull = true
+          · have : Sys.run D fuel s = (.ok .wait, s) := by unfold Sys.run; simp [h0, hd', hfull]
+            rw [this]; exact ⟨a, m, Nat.le_refl _, Nat.le_refl _, R⟩
+          · have hfull' : s.ring.isFull = false := by simpa using hfull
+            rw [run_eq_produce D fuel s h0 hd' hfull' R.noSeek.1 R.noSeek.2.1 R.noSeek.2.2]
+            have hroom : m - a < s.ring.cap := by
+              unfold Ring.isFull at hfull'
+              rw [R.tAt.ring, W.ringSlice_length] at hfull'
+              simpa using hfull'
+            obtain ⟨ds', hinv', hp⟩ := produce_at hW C R.tIn R.tAt R.a_le hroom hre' fuel hfuel
+            rw [hp]
+            have hR : RingInv W pos good ({ s with ds := ds', ring := { s.ring with items := W.ringSlice a (m + 1) }, transport := W.trAt m, reachedEnd := !W.pl m } : Sys σ ℝ) a (m + 1) :=
+              { tIn := { cfg_slice := R.tIn.cfg_slice, cfg_n := R.tIn.cfg_n, inv := hinv' }
+                tAt := { ring := rfl, transport := rfl, m_pos := by omega
+                         played := by
+                           intro k hk
+                           have hpm : W.pl (m - 1) = true := by
+                             have := R.tAt.reached; rw [hre'] at this; simpa using this.symm
+                           have := R.tAt.m_pos
+                           exact W.pl_of_later k (m - 1) (by omega) hpm
+                         reached := rfl }
+                a_le := by have := R.a_le; omega
+                noSeek := R.noSeek
+                cap := R.cap }
+            refine ⟨a, m + 1, Nat.le_refl _, by omega, ?_⟩
+            cases hpl : W.pl m with
+            | true => rw [hpl] at hR; simpa using hR
+            | false => rw [hpl] at hR; simpa using hR
 
 
 /-- every history keeps the ring invariant -/
